@@ -29,11 +29,16 @@ func runSeq(rep *explore.Report, prop, tier string) {
 			dev = 2
 		}
 		c := &Check{Property: prop, Rep: rep, N: n, DevBound: dev, MaxState: 6000000}
-		c.Run()
+		if n <= 4 {
+			c.RunReplay() // genuine replays on one object: keeps pointer identity and replaced records
+		} else {
+			c.Run()
+		}
 	}
 	rep.Set("rand_and_map_order_deviation_bound", "every answer sequence up to 3 seats, <=2 non-default answers per Join(-1) at 4 seats, <=1 from 5 seats (one deviation already reaches every seat Join(-1) can pick: the chosen key moved to the front of the map order)")
 	rep.Sample(map[string]any{"seats": 3, "history": []string{"Join(0)", "Seat(0)", "Join(2)", "Seat(2)", "Next", "Reserve(0)", "Join(1)", "Seat(1)", "Reserve(2)", "Next"}})
-	rep.Assumption("a state is rebuilt through the public API (live seats from GetSeat, SetDealer/SetSmallBlind/SetBigBlind); guarded by a struct-shape check; every reported violation is replayed on one uninterrupted object")
+	rep.Set("replay_mode", "tables of 2-4 seats are explored by replaying every history on one fresh seat manager (no state reconstruction); the key adds whether Dealer()/SmallBlind()/BigBlind() still are the live seat records")
+	rep.Assumption("from 5 seats a state is rebuilt through the public API (live seats from GetSeat, SetDealer/SetSmallBlind/SetBigBlind); guarded by a struct-shape check; every reported violation is replayed on one uninterrupted object")
 }
 
 func RunC08(rep *explore.Report, tier string) {
